@@ -265,12 +265,15 @@ def recover (frame : Bytes) : Except String Recovered :=
 structure Variant where
   popFirst : Bool
   skip : Bool
+  visitAll : Bool
   deriving DecidableEq, Repr
 
-/-- the code with fixes D20 and C19-1 applied -/
-def fixed : Variant := ⟨true, false⟩
+/-- the code with fixes D20 and C19-1 applied (`_update_tree` visits the switches of the tree) -/
+def fixed : Variant := ⟨true, false, false⟩
 /-- the code at the pinned commit -/
-def pinned : Variant := ⟨false, true⟩
+def pinned : Variant := ⟨false, true, false⟩
+/-- `fixed` plus the repair C19-2: `_update_tree` visits every connected switch -/
+def full : Variant := ⟨true, false, true⟩
 
 def LINK_TIMEOUT : Nat := 10000
 
@@ -304,7 +307,7 @@ def keys (adj : List (Link × Nat)) : List Link := adj.map (·.1)
 def handleLinkEvent (v : Variant) (adjNow : List Link) (order : List Nat) (conns : Conns) (link : Link)
     (acc : Prev × List PortMod × Nat) : Prev × List PortMod × Nat :=
   if v.skip ∧ acc.1.get (link.dpid1, link.port1) = some false ∧ acc.1.get (link.dpid2, link.port2) = some false then acc
-  else match updateTree adjNow order conns acc.1 with
+  else match updateTree v.visitAll adjNow order conns acc.1 with
     | .error _ => (acc.1, acc.2.1, acc.2.2 + 1)
     | .ok r => (r.1, acc.2.1 ++ r.2, acc.2.2)
 
@@ -330,7 +333,7 @@ def touch (adj : List (Link × Nat)) (l : Link) (t : Nat) : List (Link × Nat) :
 
 def step (v : Variant) (s : DState) : Op → DState × Out
   | .tick dt => ({ s with now := s.now + dt }, {})
-  | .up d ps => ({ s with conns := (d, ps) :: Conns.erase s.conns d, prev := s.prev.clear d }, {})
+  | .up d ps => ({ s with conns := Conns.erase s.conns d ++ [(d, ps)], prev := s.prev.clear d }, {})
   | .down d order =>
     let s1 := { s with conns := Conns.erase s.conns d }
     let links := (keys s.adj).filter fun l => l.dpid1 = d || l.dpid2 = d
